@@ -211,7 +211,11 @@ def run_case(case) -> Result:
     vsandbox.install_guard()
     ui, op, at, fill = case["user"], case["op"], case["at"], case.get("fill", 5)
     proto = USERS[ui]
-    want, responses = (authentic_isolated if case.get("prelude") else authentic)(ui, op, fill)
+    try:
+        want, responses = (authentic_isolated if case.get("prelude") else authentic)(ui, op, fill)
+    except Exception as e:  # noqa
+        # the un-attacked exchange itself fails on this tree: nothing to compare an attack with (C10 judges authentic exchanges)
+        return Result(None, False, ["reference_exchange_failed:%s" % type(e).__name__], inconclusive=True)
     if want == "F10B":
         return Result("the authentic exchange itself is refused: AuthenticationError on a response with a 127-octet TLV",
                       False, ["base_hits_known_finding"], known="reencoded_len_127")
